@@ -1,6 +1,7 @@
 //! Dimension-erased access to momtrop's public API (`SampleGenerator<D>` for D = 1..=8),
 //! logger capture (observation point O3), panic capture (O5).
 
+use crate::dd::Dd;
 use crate::tr::Tr;
 use momtrop::float::MomTropFloat;
 use momtrop::log::Logger;
@@ -36,6 +37,18 @@ impl Sc for Tr {
     }
     fn nid(&self) -> u32 {
         self.id
+    }
+}
+
+impl Sc for Dd {
+    fn mk(_: u8, _: u32, v: f64) -> Dd {
+        Dd::f(v)
+    }
+    fn val(&self) -> f64 {
+        self.hi
+    }
+    fn nid(&self) -> u32 {
+        u32::MAX
     }
 }
 
@@ -196,6 +209,8 @@ pub trait DynSampler: Send + Sync {
     fn clone_box(&self) -> Box<dyn DynSampler>;
     fn sample_f64(&self, x: &[f64], ed: &EdgeData<f64>, s: &Settings) -> SampleOut<f64>;
     fn sample_tr(&self, x: &[Tr], ed: &EdgeData<Tr>, s: &Settings) -> SampleOut<Tr>;
+    /// the same call with the double-double scalar (a user-supplied higher-precision type)
+    fn sample_dd(&self, x: &[Dd], ed: &EdgeData<Dd>, s: &Settings) -> SampleOut<Dd>;
     /// generate_sample_from_rng with a counting rng; returns (out, draws made, the f64 draws)
     fn sample_rng(&self, ed: &EdgeData<f64>, s: &Settings, seed: u64) -> (SampleOut<f64>, usize, Vec<f64>, u64);
 }
@@ -297,6 +312,9 @@ impl<const D: usize> DynSampler for SampleGenerator<D> {
     }
     fn sample_tr(&self, x: &[Tr], ed: &EdgeData<Tr>, s: &Settings) -> SampleOut<Tr> {
         run_sample::<Tr, D>(self, x, ed, s)
+    }
+    fn sample_dd(&self, x: &[Dd], ed: &EdgeData<Dd>, s: &Settings) -> SampleOut<Dd> {
+        run_sample::<Dd, D>(self, x, ed, s)
     }
     fn sample_rng(&self, ed: &EdgeData<f64>, s: &Settings, seed: u64) -> (SampleOut<f64>, usize, Vec<f64>, u64) {
         use rand::{Rng, RngCore, SeedableRng};
